@@ -715,14 +715,20 @@ func (c *ExprCtx) call(x CCall) TV {
 			return c.inOld().expr(x.Args[0])
 		case "prev":
 			// prev(x) in a loop step clause: the value at the start of the iteration
-			if c.stepLoop == nil {
-				c.fail("prev() is only meaningful in a loop step clause")
+			sl := c.stepLoop
+			if sl == nil {
+				// in a site clause inside a loop body: the value at the start of the current
+				// iteration of the innermost enclosing loop
+				sl = c.innermostLoop()
+			}
+			if sl == nil || sl.headState == nil {
+				c.fail("prev() is only meaningful in a loop step clause or at a site inside a loop (loop found: %v, block set: %v, loops: %d, %s)", sl != nil, c.block != nil, len(c.fr.loops), c.loopDebug())
 			}
 			n := *c
 			n.phiOverride = nil
-			n.block = c.stepLoop.head
-			n.idx = len(c.stepLoop.phis)
-			n.st = c.stepLoop.headState
+			n.block = sl.head
+			n.idx = len(sl.phis)
+			n.st = sl.headState
 			return n.expr(x.Args[0])
 		case "prevheap":
 			// prevheap(x) in a loop step clause: x evaluated in the memory state at the start of
@@ -1709,4 +1715,41 @@ func constIntOf(x CExpr) (int, bool) {
 		return int(ci.V.Int64()), true
 	}
 	return 0, false
+}
+
+// innermostLoop: the innermost loop of the current frame whose body contains the program point.
+func (c *ExprCtx) innermostLoop() *loopInfo {
+	if c.fr == nil || c.block == nil {
+		return nil
+	}
+	var best *loopInfo
+	for _, li := range c.fr.loops {
+		if li.body[c.block] || li.head == c.block {
+			if best == nil || len(li.body) < len(best.body) {
+				best = li
+			}
+		}
+	}
+	if best != nil {
+		return best
+	}
+	// a point on an exit path of a loop (e.g. a return statement inside the loop's source text is
+	// not part of the natural loop): the most deeply nested loop whose head dominates the point;
+	// prev(x) is then the value at the most recent visit of that head
+	for _, li := range c.fr.loops {
+		if li.head.Dominates(c.block) && li.headState != nil {
+			if best == nil || best.head.Dominates(li.head) {
+				best = li
+			}
+		}
+	}
+	return best
+}
+
+func (c *ExprCtx) loopDebug() string {
+	out := ""
+	for _, li := range c.fr.loops {
+		out += fmt.Sprintf("[head b%d dominates b%d: %v, headState: %v, inBody: %v]", li.head.Index, c.block.Index, li.head.Dominates(c.block), li.headState != nil, li.body[c.block])
+	}
+	return out
 }
